@@ -13,7 +13,7 @@ EXPLANATION = (
     "metric conventions; TearSheet field provenance; pairing of key and generator in the per-instrument/asset maps."
 )
 NOT_DECIDED = ["decimal values themselves", "ratios other than PnL / win rate / profit factor"]
-ASSUMPTIONS = ["DataSetSummary.count/sum are the running count and sum (C17, not claimed)",
+ASSUMPTIONS = [
                "rust_decimal operator impls are the arithmetic operators"]
 
 TSG = "barter::statistic::summary::instrument::TearSheetGenerator"
@@ -380,6 +380,13 @@ def r6(ctx):
     ctx.floor("in-place writers of PnLReturns", n, 1)
 
 
+def r7(ctx):
+    """win rate and profit factor are ratios of `count` and `sum` of the two return summaries: those must be the running count and
+    sum of EVERY value fed to them (= C17.R2) - a fast path that returns before `sum += value` skews the profit factor"""
+    from rules import C17
+    C17.r2(ctx)
+
+
 RULES = [
     ("R1", "WinRate/ProfitFactor argument provenance in TearSheetGenerator::generate", r1),
     ("R2", "PnLReturns::update accumulation: pnl_raw, total on every path, losses iff negative", r2),
@@ -387,4 +394,5 @@ RULES = [
     ("R4", "TearSheet field provenance (pnl, win_rate, profit_factor)", r4),
     ("R5", "per-entity maps keep key and generator of the same entity together", r5),
     ("R6", "recorded history is accumulated or replaced whole: no partial in-place rewrite; reset drops everything", r6),
+    ("R7", "the return summaries' count and sum take in every value (= C17.R2)", r7),
 ]
